@@ -55,6 +55,9 @@ def yaml_of(c):
         y += ["  mongodb:", "    name: free5gc"]
         if c["mongo"] == "ok":
             y.append("    url: {MONGO}")
+        elif c["mongo"] == "unix":
+            # a Unix domain socket in the percent-encoded form MongoDB connection strings use (not a URL net/url accepts)
+            y.append("    url: {MONGOUNIX}")
     y += ["  volumeLimit: 50000", "  volumeLimitPDU: 10000", "  reserveQuotaRatio: 5", "  volumeThresholdRate: 0.8", "  quotaValidityTime: 10000"]
     y += diameter("rfDiameter", c["rf"], "{RF}")
     y += diameter("abmfDiameter", c["abmf"], "{AB}")
